@@ -18,7 +18,8 @@ PATCH="$DDIR/mutant$L.diff"; DEMO="$DDIR/demo$L.rs"; META="$DDIR/meta$L.json"
 [ -f "$PATCH" ] || { echo "no patch $PATCH"; exit 3; }
 export CARGO_NET_OFFLINE=true
 WT=/tmp/confirm-wt-$ID$L
-export CARGO_TARGET_DIR=/tmp/confirm-target
+export CARGO_TARGET_DIR=/tmp/confirm-target${SLOT:-}
+PHASE=${PHASE:-both}
 OUT=/verif/seeded/$ID/$L
 mkdir -p "$OUT"
 cp "$PATCH" "$OUT/patch.diff"; cp "$DEMO" "$OUT/demo.rs"; cp "$META" "$OUT/meta.json"
@@ -28,10 +29,13 @@ case "$demo_loc" in temporal_capi/*) demo_pkg="-p temporal_capi"; demo_feat="";;
 if grep -q "verif_hooks" "$DEMO" && [ -z "$demo_pkg" ]; then demo_feat="--features compiled_data,verif_hooks"; fi
 demo_name=$(basename "$demo_loc" .rs)
 
+confirm_applies=no; suite=unknown; suite_cd=unknown; demo_with=unknown; demo_without=unknown
+if [ "$PHASE" = check ] && [ -f "$OUT/confirm.env" ]; then
+  . "$OUT/confirm.env"
+else
 git -C /repo worktree remove --force "$WT" 2>/dev/null; rm -rf "$WT"
 git -C /repo worktree add -q --detach "$WT" HEAD || exit 3
 cd "$WT"
-confirm_applies=no; suite=unknown; suite_cd=unknown; demo_with=unknown; demo_without=unknown
 if git apply --check "$PATCH" 2>/dev/null; then
   confirm_applies=yes
   git apply "$PATCH"
@@ -49,10 +53,15 @@ if git apply --check "$PATCH" 2>/dev/null; then
 fi
 cd /verif
 git -C /repo worktree remove --force "$WT" 2>/dev/null; rm -rf "$WT"
+fi
+cat > "$OUT/confirm.env" <<EOF2
+confirm_applies=$confirm_applies; suite=$suite; suite_cd=$suite_cd; demo_with=$demo_with; demo_without=$demo_without
+EOF2
 for f in suite.log suite_cd.log demo_with.log demo_without.log; do [ -f "$OUT/$f" ] && { grep -E "^test result|^test .* (FAILED|failed)|panicked at|error(\[|:)" "$OUT/$f" | head -20 > "$OUT/$f.short"; rm -f "$OUT/$f"; }; done
 echo "confirm: applies=$confirm_applies suite=$suite suite_compiled_data=$suite_cd demo_with_mutant=$demo_with demo_without=$demo_without"
 
 caught="{}"
+if [ "$PHASE" = confirm ]; then exit 0; fi
 if [ "$confirm_applies" = yes ] && [ "$suite" = passed ] && [ "$suite_cd" = passed ] && [ "$demo_with" = failed ] && [ "$demo_without" = passed ]; then
   if [ -n "$(git -C /repo status --porcelain)" ]; then echo "/repo is dirty, refusing"; exit 3; fi
   git -C /repo apply "$PATCH" || exit 3
